@@ -137,8 +137,42 @@ structure ClassPolicy where
   notThreadSafe : List String
   fields : List (String × Policy)
 
-open Policy in
-def policies : List ClassPolicy := [
+/-- **The policy** — hand-written, reviewed against the sources, an *input* of the theorems.  Where the
+discipline of a member comes from (what the code and its comments say it intends):
+
+* `EventLoop` — `pendingFunctors_` is `GUARDED_BY(mutex_)` in EventLoop.h: "the only channel by which
+  foreign threads hand work to a loop"; `quit_` is set by `quit()` on any thread and tested by `loop()`:
+  `std::atomic<bool>`; `threadId_` is `const`; `poller_`, `timerQueue_`, `wakeupFd_` are set by the
+  constructor and only dereferenced afterwards (`wakeup()` writes to the descriptor, the pointer is
+  never re-seated); `context_` via `setContext` (documented: not thread safe, set-up);
+  `looping_`, `eventHandling_`, `callingPendingFunctors_`, `iteration_`, `pollReturnTime_`,
+  `activeChannels_`, `currentActiveChannel_` are the loop's own bookkeeping: loop thread only.
+* `TcpConnection` — "all mutable state belongs to the loop thread" except `state_`, which `send`,
+  `shutdown`, `forceClose*`, `connected` read (and write) on any thread: atomic (F5).  The callbacks are
+  written by the set-up setters before `connectEstablished` and afterwards *used* on the loop thread
+  (`handleWrite`/`sendInLoop` copy `writeCompleteCallback_` into a functor): confined.
+  `loop_`, `name_`, the addresses: constructor only.
+* `TcpServer` — `started_` is the once-only flag of `start()` (`AtomicInt32::getAndSet`); the callbacks
+  and `threadPool_`/`acceptor_` are written by set-up methods before `start()`; `connections_` and
+  `nextConnId_` belong to the acceptor loop (`newConnection`, `removeConnectionInLoop`).  After the
+  unconditional `threadPool_->start(...)` in `start()` the caller *is* the loop thread
+  (`EventLoopThreadPool::start` is loop-confined and fails fast elsewhere): owner check `threadPool_->start`.
+* `TcpClient` — `connection_` is `GUARDED_BY(mutex_)` (shared between the loop and callers of
+  `connection()`/`disconnect()`); `retry_`, `connect_` are written by `enableRetry/connect/disconnect/stop`
+  on any thread and read by the loop: atomic (F5); `nextConnId_` loop only.
+* `Connector` — `connect_` written by `start()/stop()` on any thread: atomic (F5); `state_`, `channel_`,
+  `retryDelayMs_` loop only.
+* `TimerQueue` — everything but the constant `loop_`/`timerfd_` is touched by `addTimerInLoop`,
+  `cancelInLoop`, `handleRead` only: loop thread.
+* `EventLoopThread` — `loop_` is handed from the new thread to `startLoop()` under `mutex_`/`cond_`.
+* `EventLoopThreadPool`, `Acceptor` — base-loop objects: confined, configuration by set-up methods.
+* `ThreadPool`, `BlockingQueue`, `BoundedBlockingQueue`, `CountDownLatch`, `AsyncLogging` — monitors: the
+  queue/count/buffers are `GUARDED_BY(mutex_)` in the headers; `running_` flags are tested outside the
+  lock by the worker/back-end thread: atomic (F5 for `ThreadPool`); `threads_`/`thread_` belong to the
+  single owner that calls `start()/stop()`.
+* `Logging` — the globals `g_logLevel`, `g_output`, `g_flush`, `g_logTimeZone` are configured before
+  threads log (documented usage) and only read by the `LOG_*` path. -/
+def policies : List ClassPolicy := open Policy in [
   { cls := "EventLoop", ownerChecks := ["this"],
     setup := ["setContext", "getMutableContext"],
     notThreadSafe := ["pollReturnTime", "iteration", "eventHandling", "getContext"],
